@@ -150,6 +150,15 @@ theorem idle_serves_any (p : Nat) (hp : 1 ≤ p) (evs : List Ev) (h : (run (init
     rw [ha, hpp]; unfold need; split <;> omega
   rw [if_pos ⟨this, by rw [h]; rfl⟩, h, hpp]
 
+/-- **a request that has to wait waits for somebody**: if an acquire cannot be served, some task holds tokens — whose
+deferred release will come (there is no state in which a request waits while nothing runs) -/
+theorem blocked_has_holder (p : Nat) (hp : 1 ≤ p) (evs : List Ev) (t : Nat) (e : Bool)
+    (hb : step (run (init p) evs) (.acquire t e) = run (init p) evs) : (run (init p) evs).held ≠ [] := by
+  intro h
+  have := idle_serves_any p hp evs h t e
+  rw [hb, h] at this
+  cases this
+
 /-- a release by a task that holds nothing changes nothing (the deferred release is the only one) -/
 theorem release_unheld (s : LState) (t : Nat) (h : lookup t s.held = none) : step s (.release t) = s := by
   simp [step, h]
